@@ -58,7 +58,7 @@ DEFAULT_PROFILE = {
     'allow_return_in_loop': True, 'allow_param_assign_in_loop': True,
     'allow_break_in_light_loop': True, 'allow_zero_cycle': True,
     'allow_raw_cycle': True, 'allow_matrix_in_routine': True,
-    'max_pop': 6, 'reset_after_get': False,
+    'max_pop': 6, 'reset_after_get': False, 'routine_in_blocks': False,
 }
 
 
@@ -976,7 +976,9 @@ def gen_define(draw, env):
 
 
 def gen_routine(draw, env):
-    if env.in_routine() or env.depth > 0 or not env.prof['routines']:
+    if env.in_routine() or not env.prof['routines'] or env.matrix is not None:
+        return []
+    if env.depth > 0 and not env.prof.get('routine_in_blocks'):
         return []
     function = flip(draw)
     name = env.fresh('f' if function else 'r')
